@@ -172,6 +172,7 @@ class Client:
         self.s = socket.create_connection(("127.0.0.1", port), timeout=timeout)
         self.s.setsockopt(socket.IPPROTO_TCP, socket.TCP_NODELAY, 1)
         self.buf = bytearray()
+        self.garbled = None
         self.local_port = self.s.getsockname()[1]
 
     def send(self, data):
@@ -182,7 +183,11 @@ class Client:
         out = []
         self.s.settimeout(timeout)
         while len(out) < n:
-            vals, used = parse_all(self.buf)
+            try:
+                vals, used = parse_all(self.buf)
+            except ValueError as e:
+                self.garbled = "%s at %r" % (e, bytes(self.buf[:60]))
+                break
             if vals:
                 take = vals[: n - len(out)]
                 # re-parse to cut exactly
